@@ -100,9 +100,9 @@ def arangeValuesInt (start step : Int) (cs : List Nat) : List (List Int) :=
 
 /-! ### linspace (numerators over the common denominator `div`) -/
 
-/-- `div = (num - 1) if endpoint else num; if div == 0: div = 1` -/
-def linspaceDiv (num : Nat) (endpoint : Bool) : Nat :=
-  let d := if endpoint then num - 1 else num
+/-- `div = (num - 1) if endpoint else num; if div == 0: div = 1` (`-1` for `num = 0` with the endpoint) -/
+def linspaceDiv (num : Nat) (endpoint : Bool) : Int :=
+  let d : Int := if endpoint then (num : Int) - 1 else (num : Int)
   if d = 0 then 1 else d
 
 /-- the task loop of `linspace` (after `fix: da.linspace computes every element from its global index`):
@@ -123,6 +123,24 @@ def linspaceValues (a b range : Int) (num : Nat) (endpoint : Bool) (cs : List Na
 
 /-- NumPy: `arange(0, num) * step + start`, `y[-1] = stop` -/
 def linspaceSpec (a b range : Int) (num : Nat) (endpoint : Bool) : List Int := linspaceBlock a b range num endpoint 0 num
+
+/-! ### linspace over any arithmetic (what `chunk.linspace_block` computes in the result dtype) -/
+
+/-- element `i` of `linspace`: `y = arange(offset, offset+size)`; `y = y / div * (stop - start)` if the step underflowed
+    to zero else `y * step`; `y + start`; the last element of the array pinned to `stop` -/
+def linspaceElemG {α} (A : Arith α) (fdiv : α → α → α) (start stop step range divv : α) (stepZero : Bool)
+    (num : Nat) (endpoint : Bool) (i : Nat) : α :=
+  if endpoint ∧ 1 < num ∧ i + 1 = num then stop
+  else if stepZero then A.add (A.mul (fdiv (A.ofIdx i) divv) range) start
+  else A.add (A.mul (A.ofIdx i) step) start
+
+def linspaceBlockG {α} (A : Arith α) (fdiv : α → α → α) (start stop step range divv : α) (stepZero : Bool)
+    (num : Nat) (endpoint : Bool) (off size : Nat) : List α :=
+  (List.range size).map (fun (j : Nat) => linspaceElemG A fdiv start stop step range divv stepZero num endpoint (off + j))
+
+def linspaceValuesG {α} (A : Arith α) (fdiv : α → α → α) (start stop step range divv : α) (stepZero : Bool)
+    (num : Nat) (endpoint : Bool) (cs : List Nat) : List (List α) :=
+  (blockOffsets 0 cs).map (fun p => linspaceBlockG A fdiv start stop step range divv stepZero num endpoint p.1 p.2)
 
 /-! ### eye (after `fix: da.eye declares the chunks it builds`) -/
 
